@@ -65,6 +65,7 @@ type world struct {
 	dead       [nConns]bool
 	shortBlack map[string]bool
 	cidrBlack  bool
+	restarts   int
 }
 
 func newWorld() (*world, error) {
@@ -192,6 +193,34 @@ func (w *world) step(a Action) (*fail, string) {
 	case "sleep":
 		time.Sleep(60 * time.Millisecond) // lets short entries lapse and the cleanup ticker run
 		return w.invariants("sleep")
+	case "restart":
+		// the server process is replaced: a new server over the same storage (client records and the
+		// persisted black/white lists survive; connections, pending challenges and the in-memory
+		// failure/ban bookkeeping do not)
+		st := w.srv.Storage
+		for i := 0; i < nConns; i++ {
+			w.cl[i].CloseByPeer()
+		}
+		w.srv.Close()
+		srv, err := miniserver.New(miniserver.Options{Storage: st,
+			BruteForce: &security.BruteForceConfig{MaxFailures: 100000, TimeWindow: time.Hour, BanDuration: time.Hour, PermanentBanAt: 1000000, CleanupInterval: 20 * time.Millisecond},
+			IPRate:     &security.RateLimitConfig{Rate: 100000, Burst: 100000, TTL: time.Hour}})
+		if err != nil {
+			return &fail{"C03/harness/restart-failed", err.Error()}, ""
+		}
+		w.srv = srv
+		w.restarts++
+		for i := 0; i < nConns; i++ {
+			c, err := srv.Connect(fmt.Sprintf("%s:%d", connIPs[i], 42000+10*w.restarts+i))
+			if err != nil {
+				return &fail{"C03/harness/reconnect-failed", err.Error()}, ""
+			}
+			w.cl[i] = c
+			w.m[i] = &connModel{ctrlFor: map[int64]bool{}}
+			w.dead[i] = false
+		}
+		w.banned = map[string]bool{}
+		return w.invariants("restart")
 	case "expire":
 		id := w.ids[a.Client]
 		if _, ok := w.secrets[id]; ok && !w.expired[id] {
@@ -508,7 +537,7 @@ func runCase(t vkit.TB, c Case) {
 }
 
 func genAction(t *rapid.T) Action {
-	kind := rapid.SampledFrom([]string{"first", "phase1", "phase1", "phase1", "phase2", "phase2", "phase2", "phase2", "phase2", "malformed", "ban", "blacklist", "expire", "ban-permanent", "blacklist-cidr", "blacklist-short", "sleep"}).Draw(t, "kind")
+	kind := rapid.SampledFrom([]string{"first", "phase1", "phase1", "phase1", "phase2", "phase2", "phase2", "phase2", "phase2", "malformed", "ban", "blacklist", "expire", "ban-permanent", "blacklist-cidr", "blacklist-short", "sleep", "restart"}).Draw(t, "kind")
 	a := Action{Kind: kind, Conn: rapid.IntRange(0, nConns-1).Draw(t, "conn")}
 	a.Type = rapid.SampledFrom([]string{"", "control", "control", "tunnel"}).Draw(t, "type")
 	switch kind {
@@ -523,6 +552,10 @@ func genAction(t *rapid.T) Action {
 		a.IP = rapid.IntRange(0, 1).Draw(t, "ip")
 		if rapid.IntRange(0, 1).Draw(t, "rare") != 0 {
 			a = Action{Kind: "phase1", Conn: a.Conn, Client: "B", Type: a.Type}
+		}
+	case "restart":
+		if rapid.IntRange(0, 1).Draw(t, "rare") != 0 {
+			a = Action{Kind: "phase2", Conn: a.Conn, Client: "A", Resp: "valid", Type: a.Type}
 		}
 	case "ban", "blacklist", "ban-permanent", "blacklist-cidr":
 		a.IP = rapid.IntRange(0, 1).Draw(t, "ip")
